@@ -404,7 +404,7 @@ def run_property(mod, tier, seed):
     prop = mod.PROP
     violations = []      # (replay path, suffix)
     notes = []
-    known = [k for k in load_known() if k.get("property") == prop and k.get("status", "open") == "open"]
+    known = [k for k in load_known() if k.get("property") in [prop] + list(getattr(mod, "INCLUDED_PROPS", [])) and k.get("status", "open") == "open"]
 
     lock = BuildLock()
     lock.__enter__()
@@ -592,6 +592,63 @@ def run_property(mod, tier, seed):
     return rc
 
 
+def compose(mod):
+    """A property module may INCLUDE other modules (e.g. C17 includes w3gen, the differential stream and the laws of the
+    functions the translator generates since wave 3): their generated units, targets, theorem files, case streams, triggers
+    and witnesses become part of the property's check. Cases of an included module carry meta['_mod']."""
+    import types
+    subs = [importlib.import_module("props." + n) for n in getattr(mod, "INCLUDE", [])]
+    if not subs:
+        return mod
+    c = types.SimpleNamespace(**{k: getattr(mod, k) for k in dir(mod) if not k.startswith("__")})
+    def uniq(seq):
+        out = []
+        for x in seq:
+            if x not in out:
+                out.append(x)
+        return out
+    c.GEN_UNITS = uniq(list(getattr(mod, "GEN_UNITS", [])) + [u for s_ in subs for u in getattr(s_, "GEN_UNITS", [])])
+    c.COQ_TARGETS = uniq(list(mod.COQ_TARGETS) + [u for s_ in subs for u in s_.COQ_TARGETS])
+    c.THEOREM_FILES = uniq(list(mod.THEOREM_FILES) + [u for s_ in subs for u in s_.THEOREM_FILES])
+    lines = []
+    for m_ in [mod] + subs:
+        for ln in m_.COQ_IMPORTS.splitlines():
+            if ln.strip() and ln not in lines:
+                lines.append(ln)
+    c.COQ_IMPORTS = "\n".join(lines) + "\n"
+    c.SHARD = min([getattr(m_, "SHARD", 400) for m_ in [mod] + subs])
+    c.RULE = " || ".join(getattr(m_, "RULE", "") for m_ in [mod] + subs)
+    c.EXPLANATION = " || ".join(getattr(m_, "EXPLANATION", "") for m_ in [mod] + subs)
+    c.CORRESPONDENCE_ONLY = [x for m_ in [mod] + subs for x in getattr(m_, "CORRESPONDENCE_ONLY", [])]
+    c.ASSUMPTIONS = [x for m_ in [mod] + subs for x in getattr(m_, "ASSUMPTIONS", [])]
+    c.TRUSTED_EXTRA = [x for m_ in [mod] + subs for x in getattr(m_, "TRUSTED_EXTRA", [])]
+    byname = {s_.__name__.split(".")[-1]: s_ for s_ in subs}
+    def pick(case):
+        return byname.get((case.meta or {}).get("_mod"), mod)
+    def gen_cases(rng, tier):
+        out = list(mod.gen_cases(rng, tier))
+        for name, s_ in byname.items():
+            for cs in s_.gen_cases(rng, tier):
+                cs.meta = dict(cs.meta or {}, _mod=name)
+                out.append(cs)
+        return out
+    c.gen_cases = gen_cases
+    c.run_impl = lambda case: pick(case).run_impl(case)
+    c.coq_check = lambda case, o: pick(case).coq_check(case, o)
+    c.oracle = lambda case, o: pick(case).oracle(case, o)
+    trig = {}
+    for m_ in [mod] + subs:
+        for k, f in getattr(m_, "TRIGGERS", {}).items():
+            trig[k] = (lambda f_, m2: (lambda case: pick(case) is m2 and f_(case)))(f, m_)
+    c.TRIGGERS = trig
+    wit = {}
+    for m_ in [mod] + subs:
+        wit.update(getattr(m_, "WITNESSES", {}))
+    c.WITNESSES = wit
+    c.INCLUDED_PROPS = [s_.PROP for s_ in subs]
+    return c
+
+
 def load_corpus(prop):
     d = os.path.join(ROOT, "corpus", prop)
     out = []
@@ -614,7 +671,7 @@ def write_evidence(mod, tier, seed, t0, cov, nviol, assumptions_):
 def replay(path):
     j = json.load(open(os.path.join(ROOT, path) if not os.path.isabs(path) else path))
     prop = j["property"]
-    mod = importlib.import_module("props." + prop.lower())
+    mod = compose(importlib.import_module("props." + prop.lower()))
     if j.get("kind") != "correspondence":
         print(json.dumps(j, indent=1)[:3000])
         print("replay: this violation has no failing input (it names the obligation that no longer checks)")
@@ -649,7 +706,7 @@ def main(argv):
         print("usage: check <ID> quick|thorough | check replay <file>")
         return 2
     try:
-        mod = importlib.import_module("props." + prop.lower())
+        mod = compose(importlib.import_module("props." + prop.lower()))
         return run_property(mod, tier, seed)
     except Exception:      # the checker itself crashed: the property is not shown to hold by this run
         path = write_replay(prop, {"property": prop, "kind": "checker-crash", "traceback": traceback.format_exc()[-4000:]})
